@@ -119,7 +119,7 @@ def impl(case):
     work = tempfile.mkdtemp(prefix="cd-", dir=os.path.join(VERIF, ".work"))
     try:
         contents = _contents()
-        root = os.path.join(work, "Compose-1.0-20240101.0")
+        root = os.path.join(work, "Compose-1.0-[Server]-20240101.0" if case.get("legacy_name") or not case["slash"] else "Compose-1.0-20240101.0")
         os.makedirs(root)
         sub = {"direct": "", "compose": "compose", "legacy": case.get("legacy_name", "1.0")}
         for layout, pat in case["layouts"].items():
